@@ -124,4 +124,117 @@ def Op.srcLinked (s : State) : Op → Prop
 /-- the object heap only grows: no existing field object changes its type or data -/
 def ObjsExt (s s' : State) : Prop := ∃ extra, s'.objs = s.objs ++ extra
 
+/-! ### the abstract catalogue as a state machine (what every call means, with no h5 groups, dictionaries or objects) -/
+
+def Frame.empty : Frame := fun _ => none
+def Cat.empty : Cat := fun _ _ => none
+
+/-- add / replace / remove a whole dataframe -/
+def Cat.setFrame (A : Cat) (d : Nat) (fn : Name) (F : Option Frame) : Cat :=
+  fun d' fn' => if (d', fn') = (d, fn) then F else A d' fn'
+
+/-- add / replace / remove one column of a dataframe (nothing happens when the dataframe does not exist) -/
+def Cat.setCol (A : Cat) (d : Nat) (fn n : Name) (x : Option Content) : Cat :=
+  fun d' fn' => if (d', fn') = (d, fn) then (A d fn).map (fun F n' => if n' = n then x else F n') else A d' fn'
+
+/-- the abstract position of a field: dataset, dataframe name, column name -/
+structure Src where
+  d : Nat
+  frame : Name
+  col : Name
+  deriving DecidableEq, Repr
+
+def Cat.col (A : Cat) (p : Src) : Option Content := (A p.d p.frame).bind (· p.col)
+
+/-- a frame with its columns renamed by `dict` (a passed pre-check `RenameOk` makes this a bijection on the columns):
+    `n'` shows the column renamed to it, a name that was renamed away shows nothing, every other name is untouched -/
+def renFrame (dict : List (Name × Name)) (F : Frame) : Frame := fun n' =>
+  match dict.find? (fun p => p.2 == n') with
+  | some p => F p.1
+  | none => if n' ∈ dict.map (·.1) then none else F n'
+
+/-- The abstract effect of one call that returns normally. `src` is the position of the field the call was handed
+    (`df[c]` looked up now, or wherever the field object the client kept has got to), when the call takes a field. -/
+def specStep (src : Option Src) (A : Cat) : Op → Cat
+  | .create d fn n c => A.setCol d fn n (some c)
+  | .setItem d fn n _ => match src with | some p => A.setCol d fn n (A.col p) | none => A
+  | .copyField _ d fn n => match src with | some p => A.setCol d fn n (A.col p) | none => A
+  | .add d fn _ => match src with | some p => A.setCol d fn p.col (A.col p) | none => A
+  | .delItem d fn n => A.setCol d fn n none
+  | .drop d fn n => A.setCol d fn n none
+  | .deleteField d fn _ => match src with | some p => A.setCol d fn p.col none | none => A
+  | .rename d fn dict => A.setFrame d fn ((A d fn).map (renFrame dict))
+  | .moveField _ d fn n =>
+    match src with
+    | some p =>
+      if (p.d, p.frame) = (d, fn) then A.setFrame d fn ((A d fn).map (renFrame [(p.col, n)]))   -- same frame: a rename
+      else (A.setCol d fn n (A.col p)).setCol p.d p.frame p.col none                            -- else: copy, then drop
+    | none => A
+  | .createFrame d fn none => A.setFrame d fn (some Frame.empty)
+  | .createFrame d fn (some (sd, sfn)) => A.setFrame d fn (A sd sfn)
+  | .requireFrame d fn => if (A d fn).isSome then A else A.setFrame d fn (some Frame.empty)
+  | .copyFrame sd sfn d fn => A.setFrame d fn (A sd sfn)
+  | .setFrame d fn sd sfn =>
+    if sd = d then (A.setFrame d sfn none).setFrame d fn (A d sfn)      -- a frame of this dataset: a rename
+    else A.setFrame d fn (A sd sfn)                                     -- a foreign frame: a copy
+  | .delFrame d fn => A.setFrame d fn none
+  | .dropFrame d fn => A.setFrame d fn none
+  | .deleteFrame d _ sfn => A.setFrame d sfn none
+  | .moveFrame sd sfn d fn => (A.setFrame d fn (A sd sfn)).setFrame sd sfn none
+  | .reopen _ => A
+
+/-- one entry of the client's call log: the call, where the field it was handed was at that moment, whether it returned -/
+structure Call where
+  op : Op
+  src : Option Src
+  returned : Bool
+
+/-- a call that raises changes nothing -/
+def specCall (A : Cat) (c : Call) : Cat := if c.returned then specStep c.src A c.op else A
+
+/-- the abstract catalogue after a call log -/
+def specRun (A : Cat) (cs : List Call) : Cat := cs.foldl specCall A
+
+/-! #### reading a call log off the model -/
+
+/-- the key under which value `v` is stored -/
+def keyOfVal : Table → Nat → Option Key
+  | [], _ => none
+  | (k, v') :: t, v => if v' = v then some k else keyOfVal t v
+
+/-- where the h5 object `oid` is linked: dataset, dataframe name, column name -/
+def posOfOid (s : State) (oid : Nat) : Option Src :=
+  (keyOfVal s.links oid).bind fun gk => (keyOfVal s.file gk.1).map fun dk => ⟨dk.1, dk.2, gk.2⟩
+
+/-- the abstract position a field reference stands for -/
+def refPos (s : State) : FRef → Option Src
+  | .byName d fn c => some ⟨d, fn, c⟩
+  | .byHandle h => (s.handles[h]?).bind fun hd => posOfOid s hd.oid
+
+/-- the field a call is handed, if it takes one -/
+def Op.ref : Op → Option FRef
+  | .setItem _ _ _ r | .add _ _ r | .deleteField _ _ r | .copyField r _ _ _ | .moveField r _ _ _ => some r
+  | _ => none
+
+def srcOf (s : State) (op : Op) : Option Src := op.ref.bind (refPos s)
+
+def callOf (v : Variant) (s : State) (op : Op) : Call := ⟨op, srcOf s op, (step v s op).isOk⟩
+
+/-- the call log of a history -/
+def callLog (v : Variant) : State → List Op → List Call
+  | _, [] => []
+  | s, op :: ops => callOf v s op :: callLog v (step v s op).state ops
+
+/-- the field object a call is handed, if any, is not the left-over of a deleted column (cf. `Op.srcLinked`, which says
+    this of `dataframe.move` only) -/
+def Op.refsLinked (s : State) (op : Op) : Prop :=
+  match op.ref with
+  | some r => ∀ h, getField s r = .ok h → Linked s h
+  | none => True
+
+/-- … along a whole history -/
+def HistLinked (v : Variant) : State → List Op → Prop
+  | _, [] => True
+  | s, op :: ops => op.refsLinked s ∧ HistLinked v (step v s op).state ops
+
 end Exetera.Catalogue
